@@ -352,11 +352,11 @@ func defSource(kind int, name, id string) string {
 // ---- probes ---------------------------------------------------------------------------------
 
 type probe struct {
-	Name    string
-	Kinds   []int
-	Bool    bool // answers y/n instead of a definition identity
-	Script  bool
-	NoLoad  bool // does not trigger autoloading (only matters for the class-path family)
+	Name   string
+	Kinds  []int
+	Bool   bool // answers y/n instead of a definition identity
+	Script bool
+	NoLoad bool // does not trigger autoloading (only matters for the class-path family)
 }
 
 // autoKind: kind of each class-path name; a probe applies to it when it looks that kind up.
@@ -606,7 +606,7 @@ func judge(m *model, h []Op, v int, p probe, name int, got string) (rel, exp, ca
 	}
 	al := m.allowed(v, p.Kinds, name)
 	mu := m.must(v, p.Kinds, name) // al minus the eval-requested definitions (those may stay unresolved)
-	who := func(d int) string { // relation for a definition that must not be visible on v
+	who := func(d int) string {    // relation for a definition that must not be visible on v
 		if d < 0 || d >= len(h) || !h[d].defines() {
 			return "foreign-definition"
 		}
